@@ -15,7 +15,13 @@ MANIFEST = {
  'technique': 'Lean 4 proof (induction over records/lines, invariants of the reader machine) + table extraction + differential correspondence',
  'design_ref': 'DESIGN.md §6 C16',
 }
-THEOREMS = []          # filled below (kept in one place with the Lean file)
+THEOREMS = ['C16.users_roundtrip', 'C16.users_load_total', 'C16.lines_roundtrip', 'C16.line_roundtrip',
+            'C16.userWrites_table', 'C16.chanWrites_table', 'C16.netWrites_table', 'C16.flush_table',
+            'C16.commands_table', 'C16.written_keywords_dispatch', 'C16.readerShape_table', 'C16.shared_tables',
+            'C16.users_roundtrip_partial_leading_blank', 'C16.users_roundtrip_partial_tab', 'C16.users_nameless_aborts',
+            'C16.users_stale_creator_poisons_next_load', 'C16.users_hashed_flag_lost',
+            'C16.users_inverse_pair_order_dependent', 'C16.users_hostmask_like_name_aborts',
+            'C16.users_linebreak_name_refused']
 TRUSTED = ['Lean 4.33.0 kernel; axioms ⊆ {propext, Classical.choice, Quot.sound}',
            'harness/extractors/preserve.py (writer keywords, reader vocabularies, rfc1459 table → Gen/Preserve.lean)',
            'harness/c16.py generators, snapshot/canonicalisation code, hex line protocol',
@@ -472,6 +478,10 @@ def users_roundtrip_case(I, ud, tags, kind, out, descr=None):
               oracle_msg='' if ok else 'users before flush != users after reload (load ended with %s, creator %s): before %r after %r'
                          % (err, 'clean' if cu == '~' else 'dirty', canon_users(S0), canon_users(S1)))
     out.append((c2, ['reset', 'u_load\t' + wire.enc(text)], lambda o: canon_u_load(o[1])))
+    # 3. the hypothesis of the round-trip theorem (Lean, executable) == the harness's own classification
+    c3 = Case(dict(inp, op='storable'), impl=('0' if cls else '1'), kind=kind,
+              tags=('storable-yes',) if not cls else ('storable-no',))
+    out.append((c3, ['u_storable\t' + enc_users(S0)], lambda o: o[0]))
 
 # ---------------------------------------------------------------------------------------------
 # users: reader alone on generated files
@@ -1012,7 +1022,7 @@ def corpus_triples(I):
 def run(ctx):
     build = leanbuild.ensure(PROPERTY, THEOREMS, thorough=ctx.thorough, extractors=['Preserve', 'IrcDbCaps'])
     I = impl()
-    scale = 12 if ctx.thorough else 1
+    scale = 100 if ctx.thorough else 6
     triples, status = corpus_triples(I)
     triples += explore(ctx, scale)
     if build.driver_ok:
